@@ -38,6 +38,15 @@ Choice(a, ap, b, bp) ==
 \* C06 for one pair of results observed at the two ends (x at the end advertising a, y at the end advertising b)
 OutcomeOK(a, ap, b, bp, x, y) == x = y /\ x \in Admissible(a, ap, b, bp)
 
+\* "unencrypted operation only if both enabled it", as an end behaves: a message without envelope is taken as payload
+\* by an end only after it completed a handshake whose outcome was Plain (PeerCrypto.unencrypted) - never before the
+\* handshake completed, never on a session that selected a cipher
+TakesUnsealed(completed, outcome) == completed /\ outcome = Plain
+\* observation of unsealed probes offered to an end (early: number accepted before completion; after: "acc" | "rej" | "na")
+UnsealedProbesOK(outcome, early, after) ==
+  /\ early = 0
+  /\ after = (IF outcome = Fail THEN "na" ELSE IF TakesUnsealed(TRUE, outcome) THEN "acc" ELSE "rej")
+
 -----------------------------------------------------------------------------
 (* The rule as a list-order-dependent procedure: filter_map over the own list in own order, minimum of both speeds,
    max_by with a comparator; Tie(mode, c1, c2) = "c2 replaces c1 as the current maximum on equal scores". *)
